@@ -24,6 +24,12 @@ that cannot run out when `N > 0` (every iteration moves at least one byte — pr
 (`len = min(0 - 0, …) = 0`, nothing moves, no panic): the model answers `RingFail.hang`
 when the fuel is used up.
 
+At the end: the buffer calls that `RecvWindow` (btp/session.rs) makes on its
+`RingBuf<MAX_MESSAGE_SIZE>` — `accept_incoming` (`free()` test, `push` of the length prefix, `push` of
+the payload), `fetch_message` (`pop_byte` ×2, `pop`, `pop_byte` for the truncated rest), `reset`
+(`clear`) — transliterated on the checked ring (`Ring.acceptBuf`, `Ring.fetchBuf`, `Ring.bufRun`) and on
+the byte list the session model keeps (`qBufStep`, `qBufRun`).
+
 Import-free (the driver executable links this file).
 -/
 namespace Btp
@@ -296,5 +302,138 @@ def Ring.run (r : Ring) : List RingOp → RingM (List RingObs)
 def Ring.qRun (n : Nat) (q : List Nat) : List RingOp → List RingObs
   | [] => []
   | op :: ops => (qStep n q op).2 :: Ring.qRun n (qStep n q op).1 ops
+
+/-! ## The buffer calls of the BTP receive window, run on the checked ring -/
+
+/-- what `RecvWindow` (session.rs) does with its `buf: RingBuf<MAX_MESSAGE_SIZE>` -/
+inductive BufOp where
+  /-- `accept_incoming`, session.rs:300-310: `if self.buf.free() < prefix_len + payload.len() { Err }`,
+  `if let Some(msg_len) = sdu_len_prefix { self.buf.push(&u16::to_le_bytes(msg_len)) }`,
+  `self.buf.push(payload)` -/
+  | accept (pfx : Option (List Nat)) (payload : List Nat)
+  /-- `fetch_message(buf)` with `buf.len() = cap`, session.rs:417-436: two `pop_byte()` (the length
+  prefix), `pop(&mut buf[..min(len, cap)])`, then `pop_byte()` for the truncated rest -/
+  | fetch (cap : Nat)
+  /-- `reset`: `self.buf.clear()` -/
+  | reset
+deriving Repr, DecidableEq
+
+inductive BufOut where
+  | refused
+  | accepted
+  | fetched (bytes : List Nat)
+  | cleared
+deriving Repr, DecidableEq
+
+namespace Ring
+
+/-- `for _ in pop_len..len { if self.buf.pop_byte().is_none() { Err(Invalid)? } }`: `m` iterations;
+`none` = the `Err(Invalid)` return -/
+def drain : Nat → Ring → RingM (Option Ring)
+  | 0, r => .ok (some r)
+  | m + 1, r =>
+    match r.popByte with
+    | .error e => .error e
+    | .ok (_, none) => .ok none
+    | .ok (r2, some _) => drain m r2
+
+/-- `if let Some(msg_len) = sdu_len_prefix { self.buf.push(&u16::to_le_bytes(msg_len)); }` -/
+def pushPfx (r : Ring) : Option (List Nat) → RingM Ring
+  | none => .ok r
+  | some p =>
+    match r.push p with
+    | .error e => .error e
+    | .ok (r1, _) => .ok r1
+
+/-- the buffer calls of `RecvWindow::accept_incoming`; `none` = refused (ring untouched) -/
+def acceptBuf (r : Ring) (pfx : Option (List Nat)) (payload : List Nat) : RingM (Option Ring) :=
+  match r.free with
+  | .error e => .error e
+  | .ok f =>
+    if f < (pfx.getD []).length + payload.length then .ok none
+    else
+      match r.pushPfx pfx with
+      | .error e => .error e
+      | .ok r1 =>
+        match r1.push payload with
+        | .error e => .error e
+        | .ok (r2, _) => .ok (some r2)
+
+/-- the buffer calls of `RecvWindow::fetch_message`; `none` = an `Err(Invalid)` return (the bytes
+popped so far are then gone: the Rust mutates before it fails) -/
+def fetchBuf (r : Ring) (cap : Nat) : RingM (Option (Ring × List Nat)) :=
+  match r.popByte with
+  | .error e => .error e
+  | .ok (_, none) => .ok none
+  | .ok (r1, some lo) =>
+    match r1.popByte with
+    | .error e => .error e
+    | .ok (_, none) => .ok none
+    | .ok (r2, some hi) =>
+      match r2.pop (min (lo + 256 * hi) cap) with
+      | .error e => .error e
+      | .ok (r3, out) =>
+        if out.length ≠ min (lo + 256 * hi) cap then .ok none
+        else
+          match drain (lo + 256 * hi - min (lo + 256 * hi) cap) r3 with
+          | .error e => .error e
+          | .ok none => .ok none
+          | .ok (some r4) => .ok (some (r4, out))
+
+def bufStep (r : Ring) : BufOp → RingM (Option (Ring × BufOut))
+  | .accept pfx payload =>
+    match r.acceptBuf pfx payload with
+    | .error e => .error e
+    | .ok none => .ok (some (r, .refused))
+    | .ok (some r2) => .ok (some (r2, .accepted))
+  | .fetch cap =>
+    match r.fetchBuf cap with
+    | .error e => .error e
+    | .ok none => .ok none
+    | .ok (some (r2, out)) => .ok (some (r2, .fetched out))
+  | .reset => .ok (some (r.clear, .cleared))
+
+/-- run the receive window's buffer calls on the ring; `.ok none` = a `fetch_message` returned
+`Err(Invalid)` (run stopped); `.error` = panic / hang -/
+def bufRun (r : Ring) : List BufOp → RingM (Option (List BufOut))
+  | [] => .ok (some [])
+  | op :: ops =>
+    match r.bufStep op with
+    | .error e => .error e
+    | .ok none => .ok none
+    | .ok (some (r2, o)) =>
+      match bufRun r2 ops with
+      | .error e => .error e
+      | .ok none => .ok none
+      | .ok (some os) => .ok (some (o :: os))
+
+end Ring
+
+/-- the same on the byte list of the session model (`Model/Btp.lean`: `ringFree`, `ringPush`,
+`RecvWindow.fetchMessage`'s `lo :: hi :: rest` / `rest.take` / `rest.drop`), capacity `n`;
+`none` = `fetch` on a list that does not start with a complete length-prefixed message
+(`.error .invalid` in `Model/Btp.lean`) -/
+def qBufStep (n : Nat) (q : List Nat) : BufOp → Option (List Nat × BufOut)
+  | .accept pfx payload =>
+    if n - q.length < (pfx.getD []).length + payload.length then some (q, .refused)
+    else some (qPush n (qPush n q (pfx.getD [])) payload, .accepted)
+  | .fetch cap =>
+    match q with
+    | lo :: hi :: rest =>
+      if lo + 256 * hi ≤ rest.length then
+        some (rest.drop (lo + 256 * hi), .fetched (rest.take (min (lo + 256 * hi) cap)))
+      else none
+    | _ => none
+  | .reset => some ([], .cleared)
+
+def qBufRun (n : Nat) (q : List Nat) : List BufOp → Option (List BufOut)
+  | [] => some []
+  | op :: ops =>
+    match qBufStep n q op with
+    | none => none
+    | some (q2, o) =>
+      match qBufRun n q2 ops with
+      | none => none
+      | some os => some (o :: os)
 
 end Btp
